@@ -26,5 +26,67 @@ LEVEL_TEXT = ('Deductive proof of the Exact part of the token invariant: a non-f
     'parser: every site that copies, cuts or re-stamps a token keeps this, e.g. line removal, accent macros, verbatim '
     'tokens), together with the exact map of get_txt_pos (k-th character of a non-fixed token gets pos+k, of a fixed '
     'token pos).')
-LEVEL_NOTE = cm.TRUSTED_CORE[0] + '; single-character replacement tokens (specials, accents) are only required to sit on the position of the token they replace; assumption NoMathTokensInTextOutput.'
+LEVEL_NOTE = cm.TRUSTED_CORE[0] + '; single-character replacement tokens (specials, accents) are only required to sit on the position of the token they replace; assumption NoMathTokensInTextOutput.' + ' A bounded stand-in in the quick tier (every letter of the output of 540 small documents of copied constructs in varied layouts sits on its own source character) states the end-to-end sentence on the real code; reported as bounded, not counted as proved.'
 TECHNIQUE = 'contract-based deductive verification: object invariant Exact over the real sources, array-encoded source text, z3'
+
+
+def copied_characters_bounded(seed):
+    """"source[p-1] == character" for every letter / digit of the output, on
+    documents whose letters are all copies (no generated text): words,
+    \\verb, verbatim environments (opening line with and without trailing
+    blanks / tabs / a comment), arguments of unknown macros, user macros,
+    footnotes, \\text in maths -- each in several layouts of blanks, line
+    breaks and comments around it"""
+    import contextlib
+    import io
+    import itertools
+    from pyvc import replay as _r
+    t2t = _r.real_module('yalafi.tex2txt')
+
+    def run(src):
+        with contextlib.redirect_stderr(io.StringIO()):
+            return t2t.tex2txt(src, t2t.Options())
+    pieces = ['word', '\\verb|xyz|', '\\verb+a b+',
+              '\\begin{verbatim}%s\nabc def\n  ghi\n\\end{verbatim}',
+              '\\unknownmacro{arg}', '\\footnote{note}',
+              '\\newcommand{\\um}[1]{#1}\\um{passed}',
+              '\\emph{emphasised}', '\\textbf{\\emph{deep}}',
+              '{grouped}']
+    trail = ['', ' ', '  ', '\t', ' \t ', ' % c']
+    seps = [' ', '\n', ' % comment\n', '\n\n', '  \n  ', '\n% c\n']
+    n, fails = 0, []
+    docs = []
+    for p, (s1, s2) in itertools.product(pieces,
+                                         itertools.product(seps, repeat=2)):
+        for tr in (trail if '%s' in p else ['']):
+            q = p % tr if '%s' in p else p
+            docs.append('A' + s1 + q + s2 + 'B\n')
+    for doc in docs:
+        n += 1
+        try:
+            plain, pos = run(doc)
+        except BaseException as e:      # noqa
+            fails.append({'document': doc, 'why': 'exception %r' % (e,)})
+            continue
+        bad = [(i, c, q) for i, (c, q) in enumerate(zip(plain, pos))
+               if c.isalnum() and not (1 <= q <= len(doc)
+                                       and doc[q - 1] == c)]
+        if bad:
+            i, c, q = bad[0]
+            fails.append({'document': doc, 'text': plain,
+                          'output index': i, 'character': c,
+                          'mapped to offset': q,
+                          'source character there':
+                              doc[q - 1] if 1 <= q <= len(doc) else None})
+            if len(fails) >= 3:
+                break
+    return {'name': 'copied-characters-carry-their-own-offset',
+            'bounded': True,
+            'bound': '%d documents: %d constructs x %d x %d layouts '
+                     '(x %d endings of the verbatim opening line)' % (
+                         len(docs), len(pieces), len(seps), len(seps),
+                         len(trail)),
+            'evaluations': n, 'failures': fails}
+
+
+QUICK_BOUNDED = [copied_characters_bounded]
